@@ -474,25 +474,59 @@ func ruleCodecConstants(c *core.Ctx) {
 		n := 0
 		for _, fn := range c.Prog.Funcs(pkg) {
 			info := fn.Info()
-			ast.Inspect(fn.Decl.Body, func(m ast.Node) bool {
-				cc, ok := m.(*ast.CaseClause)
-				if !ok || len(cc.List) != 1 {
-					return true
+			g := fn.Graph()
+			var calls []*core.V
+			for _, v := range g.Vs {
+				if v.AST != nil && len(core.CallsTo(info, v.AST, false, "pdf/internal/filter/predict.(*writer).applyPNGPredictor")) > 0 {
+					calls = append(calls, v)
 				}
-				k, ok := core.IntConst(info, cc.List[0])
-				if !ok {
-					return true
+			}
+			if len(calls) == 0 {
+				continue
+			}
+			// the graph is explored for every value of the /Predictor
+			// parameter (the field, or a local copy of it); the filter type
+			// handed to applyPNGPredictor is evaluated in that state
+			isPred := func(e ast.Expr) bool {
+				e = ast.Unparen(e)
+				if sel, ok := e.(*ast.SelectorExpr); ok {
+					return sel.Sel.Name == "Predictor"
 				}
-				for _, call := range core.CallsTo(info, cc, false, "pdf/internal/filter/predict.(*writer).applyPNGPredictor") {
-					alg, ok := core.IntConst(info, call.Args[1])
-					n++
-					o.At(fn.Site(call, "predictor "+itoa(int(k))+" -> PNG filter type "+itoa(int(alg))))
-					if !ok || alg != k-10 {
-						o.Fail("predictor %d is written with PNG filter type %d, want %d", k, alg, k-10)
+				return false
+			}
+			env := &core.ByteEnv{Info: info, Alias: isPred, Tables: map[types.Object][]int64{}, Prog: c.Prog}
+			for p := int64(10); p <= 14; p++ {
+				p := p
+				o.Count(1)
+				good := env.ReachSetState(g, []*core.V{g.Entry}, func(v *core.V, st *core.ByteState) bool {
+					if v.AST == nil {
+						return false
 					}
+					for _, call := range core.CallsTo(info, v.AST, false, "pdf/internal/filter/predict.(*writer).applyPNGPredictor") {
+						if alg, ok := st.Int(call.Args[1]); ok && alg == int64(st.Byte)-10 {
+							return true
+						}
+					}
+					return false
+				}, nil)
+				bad := env.ReachSetState(g, []*core.V{g.Entry}, func(v *core.V, st *core.ByteState) bool {
+					if v.AST == nil {
+						return false
+					}
+					for _, call := range core.CallsTo(info, v.AST, false, "pdf/internal/filter/predict.(*writer).applyPNGPredictor") {
+						if alg, ok := st.Int(call.Args[1]); !ok || alg != int64(st.Byte)-10 {
+							return true
+						}
+					}
+					return false
+				}, nil)
+				if good[p] && !bad[p] {
+					n++
+					o.At(fn.Site(calls[0].AST, "predictor "+itoa(int(p))+" -> PNG filter type "+itoa(int(p-10))))
+				} else if bad[p] {
+					o.Fail("predictor %d can be written with a PNG filter type other than %d", p, p-10)
 				}
-				return true
-			})
+			}
 		}
 		o.Require(n == 5, "expected the five PNG predictors 10..14 to map to filter types 0..4, found %d", n)
 	})
@@ -1193,6 +1227,23 @@ func rulePredictorInDict(c *core.Ctx, rule string) {
 			}
 		}
 		if store == nil {
+			// or as an element of the dictionary literal
+			ast.Inspect(fn.Decl.Body, func(m ast.Node) bool {
+				cl, ok := m.(*ast.CompositeLit)
+				if !ok || !core.IsNamed(info.TypeOf(cl), "pdf", "Dict") {
+					return true
+				}
+				for _, el := range cl.Elts {
+					if kv, ok := el.(*ast.KeyValueExpr); ok {
+						if k, ok := core.StringConst(info, kv.Key); ok && k == "Predictor" {
+							store = g.VertexOf(cl)
+						}
+					}
+				}
+				return true
+			})
+		}
+		if store == nil {
 			o.Count(1)
 			o.Fail("toDict never writes /Predictor")
 			return
@@ -1307,6 +1358,56 @@ func ruleASCII85PendingOutput(c *core.Ctx, rule string) {
 			if masked {
 				continue
 			}
+			// explicit masking: `if len(r.leftover) > 0 { err = nil }` in
+			// front of the return, with no other assignment of the error
+			// between the test and the return
+			if errObj := core.ObjOf(info, errExpr); errObj != nil {
+				for _, bv := range g.BranchVertices() {
+					if bv.Cond.Expr == nil || !mentionsLeftover(bv.Cond.Expr) || !g.Dominates(bv, r) {
+						continue
+					}
+					pending := false // the true edge means "bytes are pending"
+					for _, a := range bv.Implied(core.EdgeTrue) {
+						if cmp, ok := a.AsCmp(); ok && mentionsLeftover(a.Expr) {
+							k, isK := core.IntConst(info, cmp.R)
+							if isK && k == 0 && (cmp.Op == token.GTR || cmp.Op == token.NEQ) {
+								pending = true
+							}
+						}
+					}
+					if !pending {
+						continue
+					}
+					cleared, other := false, false
+					for _, dv := range defVertices(g, errObj) {
+						if !g.ReachFrom(bv, false, core.AvoidVs(r))[dv] {
+							continue
+						}
+						as, ok := dv.AST.(*ast.AssignStmt)
+						if ok && len(as.Lhs) == 1 && len(as.Rhs) == 1 && core.IsNil(info, as.Rhs[0]) && g.EdgeDominates(dv, core.EdgeRef{From: bv, Label: core.EdgeTrue}) {
+							cleared = true
+						} else {
+							other = true
+						}
+					}
+					// every path on the true edge passes the clearing assignment
+					if cleared && !other {
+						var clears []*core.V
+						for _, dv := range defVertices(g, errObj) {
+							if g.EdgeDominates(dv, core.EdgeRef{From: bv, Label: core.EdgeTrue}) {
+								clears = append(clears, dv)
+							}
+						}
+						if !g.ReachFrom(succ(bv, core.EdgeTrue), true, core.AvoidVs(clears...))[r] {
+							masked = true
+							o.At(fn.Site(bv.AST, "pending output masks the error"))
+						}
+					}
+				}
+			}
+			if masked {
+				continue
+			}
 			guarded := g.GuardedBy(r, func(a core.Atom) bool {
 				if !mentionsLeftover(a.Expr) {
 					return false
@@ -1322,7 +1423,7 @@ func ruleASCII85PendingOutput(c *core.Ctx, rule string) {
 				o.FailAt(fn.Site(rs, ""), "%s: an error (possibly io.EOF) can be returned here while decoded bytes are still waiting in the leftover buffer; with a small read buffer the end of the data is lost", c.Prog.Pos(rs.Pos()))
 			}
 		}
-		o.Require(n >= 3, "error returns of Read not found")
+		o.Require(n >= 1, "error returns of Read not found")
 	})
 }
 
